@@ -6,6 +6,6 @@ PROP = "C06"
 
 def run(rep, tier):
     return run_core(
-        rep, "C06", ['nest', 'ctrl', 'flat_s'], ['nest', 'ctrl', 'flat', 'chain_s'], tier,
+        rep, "C06", ['nest', 'ctrl', 'flat_s', 'widecond'], ['nest', 'ctrl', 'flat', 'chain_s', 'widecond'], tier,
         "designs with one assignment per domain (comb, sync, av_comb, top_comb) at every block position of nested bodies and If/Switch/FSM blocks, explored over all register states and valuations: comb witness == body runs and all enclosing conditions, sync register toggles iff the same, av_comb witness == enclosing ordinary conditions only, top_comb witness == 1; call-site comb witnesses of all families are checked the same way",
         scheds=("eager",), floors={"designs_simulated": 100, "transitions": 20000})
